@@ -178,6 +178,7 @@ func (seekFailer) Seek(int64, int) (int64, error) { return 0, errInjected }
 type raceStorm struct {
 	name  string
 	items []raceItem
+	iters int // iterations per goroutine in the quick tier (0: 1500); the thorough tier takes 8 times as many
 }
 
 // raceStorms: families of shared operations; the expected answers are computed here, one call at a time
@@ -263,6 +264,36 @@ func raceStorms(r *rng) []raceStorm {
 		keys.items = append(keys.items, it)
 	}
 	out = append(out, keys)
+	// one query and one schema text, validated for different current steps at the same time: the answers differ by step
+	{
+		steps := []string{"first", "second", "third", "other"}
+		_, txt := c15Schema(steps, map[string][]string{"second": {"first"}, "third": {"second"}}, nil)
+		txt += "// " + tag + "\n"
+		vs := raceStorm{name: "validate-steps", iters: 120}
+		for _, q := range []string{"$.first.name.Equal(\"x\")", "$.second.ok", "{$.third.ok,$.input.ok}"} {
+			for _, cp := range append([]string{""}, steps...) {
+				vs.items = append(vs.items, raceItem{kind: "validate", q: q, schema: txt, cp: cp, want: cueValidateOnce(q, txt, cp).canonLoose()})
+			}
+		}
+		out = append(out, vs)
+	}
+	// queries nested to different depths, parsed at the same time (and evaluated: Select parses its sub-query while it runs)
+	{
+		ps := raceStorm{name: "nested-parses", iters: 150}
+		for _, n := range around([]int{3, 12, 60, 200}, 400) {
+			for _, q := range []string{strings.Repeat("{", n) + "$.a.Equal(" + tag + ")" + strings.Repeat("}", n), "$.xs" + strings.Repeat("[@.ys", n) + "[@.k.Equal(1)]" + strings.Repeat(".Any()]", n)} {
+				op, err := mpath.ParseString(q)
+				if err != nil || op == nil {
+					continue
+				}
+				ps.items = append(ps.items, raceItem{kind: "parse", q: q, want: op.Sprint(0) + "|" + mpathUserString(op)})
+			}
+		}
+		doc := tvMap("str", [][2]any{{hx("xs"), tvSlice(1, tvMap("str", [][2]any{{hx("a"), tvF64(1)}}))}})
+		sel := mk("x", doc, `$.xs.Select("`+strings.Repeat("{", 40)+"$.a.Equal(1)"+strings.Repeat("}", 40)+`")`)
+		ps.items = append(ps.items, sel.items...)
+		out = append(out, ps)
+	}
 	return out
 }
 
@@ -408,8 +439,11 @@ func init() {
 		// data race or as an answer that belongs to the neighbour's call
 		for _, fam := range raceStorms(r) {
 			iters := 1500
+			if fam.iters > 0 {
+				iters = fam.iters
+			}
 			if tier == "thorough" {
-				iters = 12000
+				iters *= 8
 			}
 			const g = 16
 			localMism := make([][]mism, g)
@@ -424,7 +458,16 @@ func init() {
 					for k := 0; k < iters; k++ {
 						it := fam.items[(gi+k*(1+gi%3))%n]
 						var got, want string
-						if len(it.datas) > 0 {
+						if it.kind == "validate" {
+							got, want = cueValidateOnce(it.q, it.schema, it.cp).canonLoose(), it.want
+						} else if it.kind == "parse" {
+							want = it.want
+							if op, err := mpath.ParseString(it.q); err != nil || op == nil {
+								got = "ERR"
+							} else {
+								got = op.Sprint(0) + "|" + mpathUserString(op)
+							}
+						} else if len(it.datas) > 0 {
 							vi := (k + gi) % len(it.datas)
 							got, want = evalShared(it.op, it.datas[vi]), it.wants[vi]
 						} else {
